@@ -812,6 +812,44 @@ def abort_item():
             % ("; ".join("%d%%N" % c for c in [0] + codes + [4]), "true" if term else "false"))
 
 
+def tee_item():
+    """utils/tee.py TeeProcessor._tee_pipe_run: what ONE iteration of the copier loop does, as a function of whether the read
+    returned no data, whether `stream_ok` still holds and whether the write to Conductor's own stream succeeds.  Codes: 0 break,
+    1 file.write(data), 2 stream.buffer.write(data) + stream.flush() succeeded, 3 the write raised: stream_ok = False."""
+    f = _find_method("conductor/utils/tee.py", "TeeProcessor", "_tee_pipe_run")
+    loops = [st for st in _walk_stmts(f.body) if isinstance(st, ast.While)]
+    if len(loops) != 1 or ast.unparse(loops[0].test) != "True" or loops[0].orelse:
+        raise Unsupported("_tee_pipe_run has no single `while True:` loop")
+    withs = [st for st in _body_without_docstring(f) if isinstance(st, ast.With)]
+    if len(withs) != 1 or ast.unparse(withs[0].items[0].context_expr) != "file" or loops[0] not in withs[0].body:
+        raise Unsupported("the copier loop does not run inside `with file:`")
+
+    def block(stmts):
+        if not stmts:
+            return "[]"           # the end of the body: next iteration
+        st, rest = stmts[0], stmts[1:]
+        src = ast.unparse(st)
+        if isinstance(st, ast.Assign) and src.startswith("data = pipe.read1("):
+            return block(rest)
+        if isinstance(st, ast.If) and ast.unparse(st.test) == "len(data) == 0" and not st.orelse and len(st.body) == 1 and isinstance(st.body[0], ast.Break):
+            return "(if data_empty then [0%%N] else %s)" % block(rest)
+        if isinstance(st, ast.Expr) and src == "file.write(data)":
+            return "(1%%N :: %s)" % block(rest)
+        if isinstance(st, ast.If) and ast.unparse(st.test) == "not stream_ok" and not st.orelse and len(st.body) == 1 and isinstance(st.body[0], ast.Continue):
+            return "(if negb stream_ok then [] else %s)" % block(rest)
+        if isinstance(st, ast.Try) and not st.orelse and not st.finalbody and len(st.handlers) == 1 \
+                and [ast.unparse(x) for x in st.body] == ["stream.buffer.write(data)", "stream.flush()"] \
+                and ast.unparse(st.handlers[0].type) in ("(OSError, ValueError)", "OSError") \
+                and [ast.unparse(x) for x in st.handlers[0].body] == ["stream_ok = False"]:
+            return "((if write_ok then [2%%N] else [3%%N]) ++ %s)" % block(rest)
+        raise Unsupported("statement of the copier loop outside the supported fragment: %s" % src)
+
+    body = block(list(loops[0].body))
+    return ("(* conductor/utils/tee.py TeeProcessor._tee_pipe_run, one iteration of `while True:` (inside `with file:`): 0 break, 1 file.write(data),\n"
+            "   2 the chunk went to Conductor's own stream, 3 that write raised and stream_ok is cleared *)\n"
+            "Definition gen_tee_iteration (data_empty stream_ok write_ok : bool) : list N := %s.\n" % body)
+
+
 def combine_item():
     """CombineOutputs.start_execution: what happens to ONE dependency, as a function of what the file system says
     about its directory and about the entry found under its name.  Result codes: 0 skipped (continue), 1 the entry
@@ -1067,7 +1105,7 @@ def generate():
         failures["task_type_table"] = "%s: %s" % (type(ex).__name__, ex)
         parts.append("(* task_type_table: NOT TRANSLATED: %s *)\n" % str(ex).replace("*)", "* )"))
     for coqname, fn in (("gen_gate_open", gate_item), ("gen_new_version", version_item), ("gen_loop_goes_on", loop_item), ("gen_wants_slot", slot_item),
-                        ("gen_prune", prune_item), ("gen_should_run", should_run_item), ("gen_validate_args", validate_args_item), ("gen_finish", finish_item), ("gen_record_type", record_type_item), ("gen_env_overrides", spawn_item), ("gen_launch_block", abort_item), ("gen_combine_decision", combine_item), ("gen_gc_decision", gc_item), ("gen_restore_before_loop", restore_item)):
+                        ("gen_prune", prune_item), ("gen_should_run", should_run_item), ("gen_validate_args", validate_args_item), ("gen_finish", finish_item), ("gen_record_type", record_type_item), ("gen_tee_iteration", tee_item), ("gen_env_overrides", spawn_item), ("gen_launch_block", abort_item), ("gen_combine_decision", combine_item), ("gen_gc_decision", gc_item), ("gen_restore_before_loop", restore_item)):
         try:
             parts.append(fn())
         except Exception as ex:  # pylint: disable=broad-except
